@@ -41,6 +41,20 @@ Field helpers (RFC 4253 message layouts, built on refssh only):
                                                              u uint32, b boolean
     FORMATS[(kexfamily, ptype)]                             - fmt of each kex message
     kex_family(name)                                        - "dh" | "gex" | "ecdh" | "c25519"
+
+Kex reference helpers (second half of the file; hashlib / cryptography / refssh only):
+    exchange_hash(kex, v_c, v_s, i_c, i_s, k_s, mid, K) with mid_dh / mid_gex / mid_ecdh
+    split_exchanges(packets), exchange_facts(kex, c2s_exchange, s2c_exchange)
+    verify_blob_signature(k_s, sig, data) -> (ok, key_type, signature_algorithm)
+    KEX_HASH, ALL_KEX, is_pseudo(name)
+Harness conveniences that do touch paramiko (last part of the file):
+    modulus_pack(entries)  context manager installing a group-exchange moduli pack
+    group_prime(bits) / fixed_group_prime(kex), only(universe, *keep)
+    cancel_timers(*transports)   after aborted handshakes (non-daemon handshake Timer)
+    wait_exchanges(n, *transports)   both sides finished their n-th key exchange
+
+The `on_packet` attribute may be (re)assigned after construction, e.g. to give the callback
+access to the PlainMitm object itself: `m.on_packet = lambda d, i, p: cb(m, d, i, p)`.
 """
 from . import refssh as R
 
@@ -422,3 +436,26 @@ def cancel_timers(*transports):
 def only(universe, *keep):
     """disabled_algorithms value that leaves exactly `keep` of `universe` enabled."""
     return [a for a in universe if a not in keep]
+
+
+def wait_exchanges(n, *transports, timeout=30.0):
+    """Harness synchronisation (not an oracle): wait until every given peers.VTransport has
+    completely finished its n-th key exchange (inbound and outbound keys switched n times and
+    `_parse_newkeys` ran to its end, i.e. clear_to_send is set again).
+
+    Needed before user-level calls such as `global_request(wait=True)` after
+    `renegotiate_keys()` returned on ONE side: the other side may still be inside
+    `_parse_newkeys`, which sets `Transport.completion_event` - the very attribute
+    `global_request` has just replaced with its own event - so the request would return before
+    its reply arrived and the next re-exchange would overlap the reply (that interplay belongs
+    to C11, not to the kex properties). Returns False on timeout or when a transport died."""
+    import time
+
+    end = time.time() + timeout
+    while time.time() < end:
+        if all(len(t.v_in) >= n and len(t.v_out) >= n and t.clear_to_send.is_set() for t in transports):
+            return True
+        if not all(t.is_active() for t in transports):
+            return False
+        time.sleep(0.002)
+    return False
